@@ -22,7 +22,7 @@ def const_preamble(r):
     return "\n".join(lines) + "\n"
 
 TEXTS = ["Hello there", "100% sure %s %d", "ROUTE 1 \u3000PALLET \u00a0TOWN", "aaaa aaa aa aaa aa aaa aa aaa aa aaa", "Price: 100$", "é ñ ü 𠮷野 😀", "{PLAYER} got {STR_VAR_1}!", "a\\nb\\lc\\pd", "x{y z}w }", "", "$", "ends\\0",
-         "tab\\there", "many   spaces   here", "LV. 50", "K_ONE", "VAR_A", "A", "lock"]
+         "tab\\there", "many   spaces   here", "LV. 50", "K_ONE", "VAR_A", "A", "lock", "Total: \\0", "a \\h b \\0", "\\0 \\x"]
 TYPES = ["", "", "ascii", "braille", "custom", "jp"]
 
 def lit(r, t=None):
@@ -56,7 +56,7 @@ def extras(r, k):
             steps = []
             for _ in range(r.randint(0, 6)):
                 st = r.choice(["walk_up", "walk_down", "face_left", "step_end", "delay_16", "delay_1", "K_ONE", "walk_up"])
-                if r.random() < 0.35: st += " * " + r.choice(["2", "1", "0x3", "010", "16", "9999", "0", "10000", "-1", "K_ONE", "65537", "4294967297", "9223372036854775807"])
+                if r.random() < 0.35: st += " * " + r.choice(["2", "1", "0x3", "010", "16", "9999", "0", "10000", "-1", "-0x3", "K_ONE", "65537", "4294967297", "9223372036854775807"])
                 steps.append(st)
                 if r.random() < 0.2: steps.append(",")
                 if r.random() < 0.1: steps.append("poryswitch(V) { A: jump_a B {} _ { jump_b * 2 step_end } }")
@@ -94,9 +94,9 @@ def extras(r, k):
 
 def mix_cfg(r):
     x = r.random()
-    kw = dict(optimize=r.random() < 0.5, lm=r.random() < 0.4, path=r.choice(["", "in.pory", "dir\\sub\\f.pory", "a b.pory"]),
+    kw = dict(optimize=r.random() < 0.5, lm=r.random() < 0.4, path=r.choice(["", "in.pory", "dir\\sub\\f.pory", "a b.pory", "a%20b.pory", "%d%s.pory"]),
               switches=r.choice([{}, {"V": "A", "GAME": "RUBY", "W": "1"}, {"V": "B", "GAME": "RUBY", "W": "A"}, {"V": "ZZ", "W": "1", "GAME": "B"},
-                                 {"V": "A", "GAME": "A", "W": "B"}, {"V": "A"}, {"V": "", "GAME": "RUBY", "W": "1"}, {"V": "A", "W": "", "GAME": ""}]), lint=r.random() < 0.1)
+                                 {"V": "A", "GAME": "A", "W": "B"}, {"V": "A"}, {"V": "", "GAME": "RUBY", "W": "1"}, {"V": "A", "W": "", "GAME": ""}, {"V": "A=B", "GAME": "RUBY=EU", "W": "="}, {"V": "A B", "W": "1"}]), lint=r.random() < 0.1)
     if x < 0.3:
         c = repo_cfg(deffont=r.choice(["", "", "1_latin_frlg", "NOPE"]), maxlen=r.choice([0, 0, 120, 40]), **kw)
     else:
@@ -240,3 +240,44 @@ _gen_mix_plain = gen_mix
 def gen_mix(rnd, n, tier="quick"):
     k = n // 3
     return _gen_mix_plain(rnd, n - k, tier) + gen_boundary(rnd, k)
+
+# ---------------------------------------------------------------------------------------------
+# glue stream: small programs under the option / file-shape combinations that only main.go sees
+# (line endings, first / last bytes of the file, stdin vs -i, -o, paths, -s values, -f / -l against
+# per-font settings). Every case of this stream is ALWAYS part of the command line correspondence
+# of every check, and goes through the ordinary correspondences like any other case.
+GLUE_BODIES = [
+    'script Main {\n\tlock\n\tmsgbox("Hi %d%% there")\n\trelease\n\tend\n}\n',
+    'script Main {\n\tlock\n\tbreak\n}\n',
+    'script Main {\n\tsetvar(VAR_A, N % 4)\n\taddvar(VAR_B, (S %d) % L, 1)\n}\n\nscript Other {\n\tif (flag(FLAG_A)) {\n\t\tcontinue\n\t}\n}\n',
+    'text T {\n\tformat("aaaa bbbb cccc dddd", "sign")\n}\n\ntext U {\n\tformat("aaaa bbbb cccc dddd")\n}\n',
+    'script S {\n\tmsgbox(format("aaaa bbbb cccc dddd eeee", fontId="sign"))\n\tmsgbox(format("aaaa bbbb cccc dddd eeee", "dialog", 30))\n}\n',
+    'movement M {\n\tporyswitch(V) {\n\t\tA: walk_left\n\t\t_: walk_right\n\t}\n}\n\nmart Shop {\n\tITEM_A\n\tporyswitch(GAME) { RUBY { ITEM_R } _ { ITEM_X } }\n}\n',
+    'script S {\n\tporyswitch(V) {\n\t\tA { msgbox("a") }\n\t\t_ { msgbox("other") }\n\t}\n}\n',
+    'raw `\n\t.byte 1\n\t.byte 2\n`\n\nscript After {\n\tnop\n}\n',
+    'const K = 3\nscript S {\n\tswitch (var(VAR_A)) {\n\t\tcase K: a\n\t\tcase 3: b\n\t}\n}\n',
+    'mapscripts M {\n\tMAP_SCRIPT_ON_LOAD {\n\t\tlock\n\t}\n\tMAP_SCRIPT_ON_FRAME_TABLE [\n\t\tVAR_T, 1 { end }\n\t]\n}\n',
+    'script S {\n\tif (checkitem(ITEM_A, 1) == TRUE) {\n\t\tyes\n\t}\n\tS_1:\n\tno\n}\n',
+    '', 'script', '# only a comment', 'script S {\n\tmsgbox("unterminated)\n}\n',
+]
+def gen_cli(rnd, n):
+    out = []
+    fonts = {"dialog": {"maxLineLength": 100, "numLines": 2, "cursorOverlapWidth": 0, "widths": {"default": 10}},
+             "sign": {"maxLineLength": 50, "numLines": 3, "cursorOverlapWidth": 10, "widths": {"default": 10, " ": 5}}}
+    for i in range(n):
+        src = GLUE_BODIES[i % len(GLUE_BODIES)] if i < 2 * len(GLUE_BODIES) else rnd.choice(GLUE_BODIES)
+        nl = rnd.choice(["\n", "\n", "\r\n", "\r\n", "\r", "\n\r"])
+        if nl != "\n": src = src.replace("\n", nl)
+        x = rnd.random()
+        if x < 0.15: src = src.rstrip("\r\n")                       # no final line break
+        elif x < 0.3: src = src.rstrip("\r\n") + "\r"               # cut between CR and LF
+        elif x < 0.4: src = src + rnd.choice(["\n\n", "\r\n\r\n", " ", "\t\n", "\x00", "\x1a"])
+        y = rnd.random()
+        if y < 0.15: src = rnd.choice(["\n\n", "\r\n", "  ", "\t", "﻿", "\n \n"]) + src   # the file starts with blanks / a BOM
+        sw = rnd.choice([{"V": "A", "GAME": "RUBY"}, {"V": "A=B", "GAME": "RUBY=EU"}, {"V": "", "GAME": "RUBY"}, {"V": "B", "GAME": ""}, {"V": "A B", "GAME": "=RUBY"}, {}, {"V": "A"}])
+        cfg = Cfg(optimize=rnd.random() < 0.5, lm=rnd.random() < 0.6, lint=False,
+                  path=rnd.choice(["", "", "in.pory", "a b.pory", "Route%20101.pory", "%s%d.pory", "./x.pory", "d1/d2//y.pory", "é.pory", "dir\\sub\\f.pory"]),
+                  deffont=rnd.choice(["", "", "sign", "dialog", "nope"]), maxlen=rnd.choice([0, 0, 0, 40, 1000]), switches=sw,
+                  autovars=dict(AUTOVARS), fontdefault=rnd.choice(["dialog", "dialog", "sign", ""]), fonts=fonts)
+        out.append(Case(compile_line(cfg, src), src, cfg, {"mix": True, "glue": True}))
+    return out
